@@ -741,6 +741,14 @@ class ExcludeRegionState(object):  # pylint: disable=too-many-instance-attribute
 
         self.priorExtruderPosition = None
 
+        if (not returnCommands) and (not self.excluding) and (deltaE != 0):
+            # The command is dropped although the tool is not in an excluded region (e.g. a
+            # retraction that is skipped because its recovery was excluded, so the filament is
+            # already retracted).  The file's extruder coordinate has moved on, so keep the
+            # printer's coordinate in step with it, as is done when leaving a region.
+            self.numExcludedCommands += 1
+            returnCommands = ["G92 E{e}".format(e=eAxis.nativeToLogical())]
+
         if (not returnCommands):
             returnCommands = self.ignoreGcodeCommand()
 
